@@ -110,12 +110,15 @@ pub(crate) struct TxInner<'tx> {
 
 impl<'tx> Tx<'tx> {
     pub(crate) fn new(db: &'tx DB, writable: bool) -> Result<Tx<'tx>> {
+        verif_at!(TxBeginBeforeLock, writable);
         let lock = match writable {
             true => TxLock::Rw(db.inner.file.lock()?),
             false => TxLock::Ro(db.inner.mmap_lock.read()?),
         };
+        verif_at!(TxBeginAfterLock, writable);
         let mut freelist = db.inner.freelist.lock()?.clone();
         let mut meta = db.inner.meta()?;
+        verif_at!(TxBeginAfterMeta, writable);
         debug_assert!(meta.valid());
         {
             let mut open_ro_txs = db.inner.open_ro_txs.lock().unwrap();
@@ -131,6 +134,7 @@ impl<'tx> Tx<'tx> {
                 open_ro_txs.sort_unstable();
             }
         }
+        verif_at!(TxBeginAfterRegister, writable);
         let freelist = Rc::new(RefCell::new(TxFreelist::new(meta.clone(), freelist)));
 
         let data = db.inner.data.lock()?.clone();
@@ -147,9 +151,29 @@ impl<'tx> Tx<'tx> {
             num_freelist_pages,
             pages,
         };
+        verif_at!(TxBeginEnd, writable);
         Ok(Tx {
             inner: RefCell::new(inner),
         })
+    }
+
+    /// Verification probe: this transaction's private bookkeeping.
+    #[cfg(feature = "verif-hooks")]
+    pub fn verif_tx_state(&self) -> crate::verif_hooks::TxState {
+        let tx = self.inner.borrow();
+        let fl = tx.freelist.borrow();
+        crate::verif_hooks::TxState {
+            writable: tx.lock.writable(),
+            tx_id: tx.meta.tx_id,
+            meta_page: tx.meta.meta_page,
+            root_page: tx.meta.root.root_page,
+            next_int: tx.meta.root.next_int,
+            num_pages: tx.meta.num_pages,
+            freelist_page: tx.meta.freelist_page,
+            free: fl.inner.verif_free(),
+            pending: fl.inner.verif_pending(),
+            map_len: tx.pages.data.len(),
+        }
     }
 
     pub(crate) fn writable(&self) -> bool {
@@ -260,6 +284,7 @@ impl<'tx> Tx<'tx> {
         if !self.writable() {
             return Err(Error::ReadOnlyTx);
         }
+        verif_at!(CommitStart, true);
         let mut tx = self.inner.borrow_mut();
         let freelist = tx.freelist.clone();
         let mut freelist = freelist.borrow_mut();
@@ -300,6 +325,7 @@ impl<'tx> TxInner<'tx> {
             let required_size = self.meta.num_pages * self.db.inner.pagesize;
             let current_size = file.metadata()?.len();
             if current_size < required_size {
+                verif_at!(CommitBeforeGrow, true);
                 let size_diff = required_size - current_size;
                 let alloc_size = ((size_diff / MIN_ALLOC_SIZE) + 1) * MIN_ALLOC_SIZE;
                 let data = self.db.inner.resize(file, current_size + alloc_size)?;
@@ -307,6 +333,7 @@ impl<'tx> TxInner<'tx> {
             }
 
             // write the data to the file
+            verif_at!(CommitBeforeData, true);
             {
                 // freelist.pages is a BTreeMap so we're writing the pages in order to minmize
                 // the random seeks.
@@ -322,6 +349,7 @@ impl<'tx> TxInner<'tx> {
         }
         if let TxLock::Rw(file) = &mut self.lock {
             // write meta page to file
+            verif_at!(CommitBeforeMeta, true);
             {
                 let mut buf = vec![0; self.db.inner.pagesize as usize];
 
@@ -345,11 +373,16 @@ impl<'tx> TxInner<'tx> {
                 file.write_all(buf.as_slice())?;
             }
 
+            verif_at!(CommitBeforeSync, true);
             file.flush()?;
             file.sync_all()?;
 
+            verif_at!(CommitBeforePublish, true);
             let mut lock = self.db.inner.freelist.lock()?;
             *lock = freelist.inner.clone();
+            #[cfg(feature = "verif-hooks")]
+            drop(lock);
+            verif_at!(CommitAfterPublish, true);
             Ok(())
         } else {
             unreachable!()
@@ -476,6 +509,7 @@ impl<'tx> TxInner<'tx> {
 
 impl<'tx> Drop for TxInner<'tx> {
     fn drop(&mut self) {
+        verif_at!(TxDropStart, self.lock.writable());
         if !self.lock.writable() {
             let mut open_txs = self.db.inner.open_ro_txs.lock().unwrap();
             let index = match open_txs.binary_search(&self.meta.tx_id) {
@@ -484,6 +518,7 @@ impl<'tx> Drop for TxInner<'tx> {
             };
             open_txs.remove(index);
         }
+        verif_at!(TxDropEnd, self.lock.writable());
     }
 }
 
